@@ -18,6 +18,20 @@ CLAIMS['C20'] = dict(
          'the Laplacian for any flux map, and the assembly times sqrt(dx dy). Does not decide convergence order on curved fields '
          'or finiteness where grad psi = 0.',
     technique='finite-configuration partial evaluation of the stencil loop + exact rational-function algebra with formal derivatives')
+CLAIMS['C09'] = dict(
+    text='Decides necessary structural conditions on every function and internal call edge of ionisation_balance.py: no path '
+         'discards a supplied argument (nullness/guard analysis of parameter overwrites -- the class of the discarded donor '
+         'rate set); every call edge forwards each role (n_e, t_e, donor, donor density and charge, free variable, element '
+         'density, species densities, rate sets) to the callee parameter of the same role (dropped or swapped arguments), through '
+         'all 18 entry points; the sum-to-one constraint row, bounds (0, n_e), division by the same n_e and the density '
+         'scalings; and, by exhaustive unrolling for Z = 1..18 with and without donor with rates as opaque symbols, that the '
+         'assembled matrix is tridiagonal with M[z+1,z] = S_z, M[z,z+1] = alpha_{z+1} + (n_D/n_e) C_{z+1} and zero column sums, '
+         'i.e. exactly the stated neighbour balance for any null vector. Does not decide that scipy returns that vector or '
+         'numerical agreement between input representations.',
+    technique='guard-dominance on parameter stores, role-forwarding over the call graph, finite unrolling + exact polynomial identities')
+
+# ---- everything not claimed above is pending / not applicable
 _pending = 'check not built yet in this session (see DESIGN.md build order); not claimed until it is'
-for _p in ['C01','C02','C03','C04','C05','C06','C07','C08','C09','C10','C11','C12','C13','C14','C16','C17','C18','C19']:
-    NA[_p] = _pending
+for _p in ['C%02d' % i for i in range(1, 21)]:
+    if _p not in CLAIMS:
+        NA[_p] = _pending
